@@ -234,6 +234,13 @@ func kafkaGoroutinesP() (int, string, bool) {
 // kafkaGoroutinesPO also tells whether one of them is an orphaned Transport connection: a
 // (*conn).run that waits for requests (not inside a round trip).
 func kafkaGoroutinesPO() (int, string, bool, bool) {
+	n, where, parked, orphan, _ := kafkaCensus()
+	return n, where, parked, orphan
+}
+
+// kafkaCensus: … and stuck = a Transport connection goroutine ((*conn).run created by
+// connGroup.connect) that is blocked inside a round trip.
+func kafkaCensus() (int, string, bool, bool, bool) {
 	buf := make([]byte, 1<<20)
 	for {
 		n := runtime.Stack(buf, true)
@@ -244,7 +251,7 @@ func kafkaGoroutinesPO() (int, string, bool, bool) {
 		buf = make([]byte, 2*len(buf))
 	}
 	n := 0
-	parked, orphan := false, false
+	parked, orphan, stuck := false, false, false
 	where := map[string]int{}
 	for _, blk := range bytes.Split(buf, []byte("\n\n")) {
 		lines := strings.Split(string(blk), "\n")
@@ -266,6 +273,10 @@ func kafkaGoroutinesPO() (int, string, bool, bool) {
 		if strings.Contains(body, "(*conn).run") && !strings.Contains(body, "(*conn).roundTrip") && strings.Contains(lines[0], "[chan receive") {
 			orphan = true
 		}
+		if strings.Contains(body, "(*conn).run") && strings.Contains(created, "connGroup).connect") &&
+			(strings.Contains(body, "(*conn).roundTrip") || strings.Contains(body, "protocol.RoundTrip")) {
+			stuck = true
+		}
 		top := ""
 		for _, l := range lines[1:] {
 			if strings.HasPrefix(l, kafkaPkg) {
@@ -283,7 +294,7 @@ func kafkaGoroutinesPO() (int, string, bool, bool) {
 		keys = append(keys, k)
 	}
 	sort.Strings(keys)
-	return n, strings.Join(keys, "/"), parked, orphan
+	return n, strings.Join(keys, "/"), parked, orphan, stuck
 }
 
 // frameName shortens "github.com/segmentio/kafka-go.(*Reader).run.func1(0x…)" or
